@@ -4,3 +4,4 @@ import XonshCerts.Regex
 import XonshCerts.Dead
 import XonshCerts.Cost
 import XonshCerts.Actions
+import XonshCerts.Regen
